@@ -12,6 +12,7 @@ import json
 import re
 import sys
 import time
+from concurrent.futures import ThreadPoolExecutor
 
 from .. import badProgGen as bg
 from .. import dump_tree as dt
@@ -42,7 +43,7 @@ def build_cases(ctx):
     groups = [
         bg.gen_lexing(rng, ctx.n(60, 400)), bg.gen_syntax(rng, ctx.n(260, 1500)), bg.gen_names(rng, ctx.n(120, 600)),
         bg.gen_layout(rng, ctx.n(176, 880)), bg.gen_range(rng, ctx.n(256, 2048)), bg.gen_arith(rng, ctx.n(360, 2880)),
-        bg.gen_recursion(rng, ctx.n(90, 184)), bg.gen_collisions(rng, ctx.n(76, 304)), bg.gen_huge(rng, ctx.n(48, 96), mem),
+        bg.gen_recursion(rng, ctx.n(90, 184)), bg.gen_collisions(rng, ctx.n(76, 304)), bg.gen_huge(rng, ctx.n(52, 104), mem),
     ]
     valid = bg.gen_valid(rng, ctx.n(150, 1500))
     groups.append(valid)
@@ -231,6 +232,7 @@ LIB_CODE = [  # (exception class, regex on the message) -> libkind code of AsmEr
     ('FlipJumpPreprocessorException', r"'pad .* needs .* padding ops", 21), ('FlipJumpWriteFjmException', r'data word', 40),
     ('FlipJumpPreprocessorException', r'segment ops must have', 18), ('FlipJumpPreprocessorException', r'reserve failed', 19),
     ('FlipJumpPreprocessorException', r'reserve ops must have', 20),
+    ('FlipJumpPreprocessorException', r'reserve must get a non-negative', 22),
     ('FlipJumpAssemblerException', r'Not enough space.* in op ', 31), ('FlipJumpAssemblerException', r' in op ', 30),
     ('FlipJumpAssemblerException', r'segment boundaries are unaligned', 32), ('FlipJumpAssemblerException', r'Not enough space', 33),
     ('FlipJumpAssemblerException', r'failed to add the segment', 34), ('FlipJumpAssemblerException', r'no first op at address 0', 35),
@@ -353,7 +355,7 @@ def compare_with_model(ctx, cases, obs):
         elif o['result'] == 'ok' or (o['result'] == 'exception' and o.get('stage') not in ('parse', 'parser-fold', 'api')):
             # the tree translator (dump_tree.py) is recursive: trees too deep for it are only compared through `pre`
             deep = c['cls'] == 'recursion' or o.get('cause') == 'RecursionError' or max(map(len, c['text'].split('\n'))) > 1500
-            if len(c['text']) < 6000 and not deep:
+            if len(c['text']) < 6000 and not deep and o.get('secs', 0) <= 0.3:
                 todo.append((c, o, 'dump'))
     limit = ctx.n(700, 8000)
     pre = [t for t in todo if t[2] == 'pre']
@@ -396,23 +398,38 @@ def compare_with_model(ctx, cases, obs):
     shard_secs = []
     shards = [terms[i:i + shard] for i in range(0, len(terms), shard)]
 
-    def one(idx_ts):
-        idx, ts = idx_ts
-        path = ctx.scratch / f'c14model_{idx}.v'
+    def evaluate(name, ts, timeout):
+        path = ctx.scratch / f'{name}.v'
         body = COQ_HEADER + 'Definition cases := [\n' + ';\n'.join(ts) + '\n].\n' + \
             'Eval vm_compute in (map case_codes cases).\n'
         path.write_text(body)
         t0 = time.time()
-        rc, out = fw.coqc_file(path, 900)
-        shard_secs.append(round(time.time() - t0, 1))
-        if rc != 0:
-            return None, out
-        pairs = re.findall(r'\(\s*(\d+)\s*,\s*(\d+)\s*\)', out)
-        if len(pairs) != len(ts):
-            return None, out
-        return [(int(a), int(b)) for a, b in pairs], ''
+        rc, out = fw.coqc_file(path, timeout)
+        secs = round(time.time() - t0, 1)
+        pairs = re.findall(r'\(\s*(\d+)\s*,\s*(\d+)\s*\)', out) if rc == 0 else []
+        if rc == 0 and len(pairs) == len(ts):
+            return [(int(a), int(b)) for a, b in pairs], '', secs
+        return None, (out if out.strip() else 'TIMEOUT'), secs
 
-    from concurrent.futures import ThreadPoolExecutor
+    def one(idx_ts):
+        idx, ts = idx_ts
+        r, err, secs = evaluate(f'c14model_{idx}', ts, 120)
+        shard_secs.append(secs)
+        if r is not None or err != 'TIMEOUT':
+            return r, err
+        # the vm_compute evaluation of the model is ~1000x slower than the assembler: a shard that does not finish is
+        # evaluated case by case, and a case that alone needs more than 30 s is skipped (and counted)
+        def single(jt):
+            return evaluate(f'c14model_{idx}_{jt[0]}', [jt[1]], 30)
+        with ThreadPoolExecutor(max_workers=8) as ex2:
+            singles = list(ex2.map(single, list(enumerate(ts))))
+        res = []
+        for r1, e1, _ in singles:
+            if r1 is None and e1 != 'TIMEOUT':
+                return None, e1
+            res.append(r1[0] if r1 else None)
+        return res, ''
+
     with ThreadPoolExecutor(max_workers=fw.NCPU) as ex:
         for r, err in ex.map(one, list(enumerate(shards))):
             if r is None:
@@ -420,7 +437,12 @@ def compare_with_model(ctx, cases, obs):
                 return
             outs += r
     agree = 0
-    for (c, o, rc, how), (mv, mf) in zip(meta, outs):
+    for (c, o, rc, how), mres in zip(meta, outs):
+        if mres is None:
+            ctx.hist('model_compare', 'model evaluation exceeded 30 s (skipped)')
+            ctx.coverage.setdefault('model_skipped', []).append({'w': c['w'], 'source': c['text'][:400], 'real_secs': o.get('secs')})
+            continue
+        mv, mf = mres
         ctx.count(('model', c['text'], c['w'], c['v']), nontrivial=(rc != 0))
         ctx.hist('model_verdict', mv if mv < 100 else f'{mv // 100 * 100}+{mv % 100}')
         same = (mv == rc) and (mf == file_code(o))
@@ -441,6 +463,9 @@ def compare_with_model(ctx, cases, obs):
         else:
             ctx.broken_tie('C14 model correspondence (AsmErrors.assemble_model vs flipjump.assemble)', detail)
     ctx.coverage['model_shard_secs'] = sorted(shard_secs)
+    skipped = sum(1 for r in outs if r is None)
+    if skipped > max(5, len(outs) // 50):
+        ctx.broken_tie('C14 model correspondence', f'{skipped} of {len(outs)} model evaluations did not finish')
     ctx.coverage['model_cases'] = len(meta)
     ctx.coverage['model_agree'] = agree
 
